@@ -21,6 +21,7 @@
 #include <fcppt/variant/object_impl.hpp>
 #include <fcppt/variant/to_optional.hpp>
 #include <fcppt/variant/to_optional_ref.hpp>
+#include <functional>
 #include <type_traits>
 
 namespace
@@ -188,6 +189,55 @@ void binary()
   verif_out("eq", eq);
   verif_reach("binary-end");
 }
+
+// ---------------------------------------------------------------- compare with HETEROGENEOUS predicates
+// std::equal_to<>, std::less<> and a generic lambda are invocable on every pair of (mutually comparable)
+// alternatives.  The contract: false for different alternatives - however equal the values look -, otherwise the
+// predicate on the two payloads of the SAME type; and compare(a, b, equal_to<>) must agree with operator==.
+template <typename V, typename T0, typename T1, typename T2>
+V make_at(unsigned const tag, T0 const v0, T1 const v1, T2 const v2)
+{
+  if constexpr (std::is_same_v<T2, void *>) return tag == 0 ? V{v0} : V{v1};
+  else return tag == 0 ? V{v0} : tag == 1 ? V{v1} : V{v2};
+}
+// N = 2: T2 is the dummy void*
+template <typename T0, typename T1, typename T2, unsigned N>
+void compare_hetero()
+{
+  log_reset();
+  using V = std::conditional_t<N == 2, var::object<T0, T1>, var::object<T0, T1, T2>>;
+  unsigned const ta{verif_u8("tag")}, tb{verif_u8("tag2")};
+  verif_assume(ta < N && tb < N);
+  T0 const a0{sym<T0>("a")}, b0{sym<T0>("a2")};
+  T1 const a1{sym<T1>("b")}, b1{sym<T1>("b2")};
+  using T2v = std::conditional_t<N == 2, int, T2>;
+  T2v const a2{sym<T2v>("c")}, b2{sym<T2v>("c2")};
+  V const a{make_at<V>(ta, a0, a1, std::conditional_t<N == 2, void *, T2>(N == 2 ? T2{} : T2(a2)))};
+  V const b{make_at<V>(tb, b0, b1, std::conditional_t<N == 2, void *, T2>(N == 2 ? T2{} : T2(b2)))};
+  bool const same{ta == tb};
+  bool const eq_same{ta == 0 ? a0 == b0 : ta == 1 ? a1 == b1 : a2 == b2};
+  bool const lt_same{ta == 0 ? a0 < b0 : ta == 1 ? a1 < b1 : a2 < b2};
+  bool const ceq{var::compare(a, b, std::equal_to<>{})};
+  bool const clt{var::compare(a, b, std::less<>{})};
+  verif_assert(ceq == (same && eq_same), "compare(a,b,equal_to<>) = same alternative && equal payloads (never true across alternatives)");
+  verif_assert(clt == (same && lt_same), "compare(a,b,less<>) = same alternative && l < r on that alternative");
+  verif_assert(ceq == (a == b), "compare(a,b,equal_to<>) agrees with operator==");
+  // a generic lambda: an arbitrary relation on (type index, value) pairs, logged
+  bool const cg{var::compare(a, b, [](auto const &x, auto const &y) {
+    using X = std::remove_cvref_t<decltype(x)>;
+    using Y = std::remove_cvref_t<decltype(y)>;
+    u64 const ix{std::is_same_v<X, T0> ? 0U : std::is_same_v<X, T1> ? 1U : 2U}, iy{std::is_same_v<Y, T0> ? 0U : std::is_same_v<Y, T1> ? 1U : 2U};
+    log_call(60, (ix << 8) | iy, enc(x) ^ (enc(y) << 1));
+    return (verif_uf3(60, (ix << 8) | iy, enc(x), enc(y)) & 1U) != 0U;
+  })};
+  u64 const ha{ta == 0 ? enc(a0) : ta == 1 ? enc(a1) : enc(a2)}, hb{tb == 0 ? enc(b0) : tb == 1 ? enc(b1) : enc(b2)};
+  verif_assert(cg == (same && (verif_uf3(60, (static_cast<u64>(ta) << 8) | tb, ha, hb) & 1U) != 0U), "compare(a,b,generic predicate) = same alternative && p(l,r)");
+  verif_assert(g_calls == (same ? 1 : 0), "a heterogeneous predicate is never called on two different alternatives");
+  if (same) verif_assert(logged(0, 60, (static_cast<u64>(ta) << 8) | tb, ha ^ (hb << 1)), "it is called with (left payload, right payload) of the common alternative");
+  verif_out("same", same);
+  verif_out("ceq", ceq);
+  verif_reach("compare-hetero-end");
+}
 }
 
 using uc = unsigned char;
@@ -196,3 +246,6 @@ H(h_var_basics_isc, (basics<int, short, uc, int>())) H(h_var_basics_cis, (basics
 //@harness h_var_basics_{T} for T in isc,cis tier=quick
 H(h_var_binary_isc, (binary<int, short, uc, uc>())) H(h_var_binary_cis, (binary<uc, int, short, int>()))
 //@harness h_var_binary_{T} for T in isc,cis tier=quick
+H(h_var_compare_hetero_isc, (compare_hetero<int, short, uc, 3>())) H(h_var_compare_hetero_ilu, (compare_hetero<int, long, unsigned, 3>()))
+H(h_var_compare_hetero_bi, (compare_hetero<bool, int, void *, 2>()))
+//@harness h_var_compare_hetero_{T} for T in isc,ilu,bi tier=quick
